@@ -1,22 +1,22 @@
-SPECIFICATION SSpec
+SPECIFICATION TraceSpec
 CONSTANTS
   Vars = {"a", "b", "c"}
-  Fams = {"amo", "pb"}
+  Fams = {}
   ClauseMax = 0
   AmoSeq = 0
-  AmoMax = 3
+  AmoMax = 0
   AmoPols = {0, 1}
   HeuleKs = {}
-  PbShape = "ordered"
-  PbTerms = 3
-  PbPols = {1}
+  PbShape = "raw"
+  PbTerms = 0
+  PbPols = {0, 1}
   PbNeg = 0
-  PbPos = 1
-  PbBound = 3
+  PbPos = 0
+  PbBound = 0
   PbOps = {">="}
-  MaxMgrs = 2
-  MaxPosts = 2
-  EMIT = TRUE
+  MaxMgrs = 0
+  MaxPosts = 0
+  EMIT = FALSE
   RTerms = 0
   RCoef = 0
   RBound = 0
@@ -31,8 +31,3 @@ CONSTANTS
   CMax2 = 0
   KMax2 = 0
 CHECK_DEADLOCK FALSE
-INVARIANT AllowedIsConjunction
-INVARIANT Exact
-INVARIANT NeverDropped
-INVARIANT StoreCanonical
-INVARIANT LastDiagram
